@@ -1496,6 +1496,7 @@ fn verif_pass_digest(
         v
     };
     undef(&ctx.undefined).hash(&mut h);
+    undef(&ctx.changed).hash(&mut h);
     undef(prev_undefined).hash(&mut h);
     let diags = |d: &Diagnostics| {
         d.iter()
